@@ -62,6 +62,19 @@ inline void addTickDelays(Rng& rng, Json::Value& plan, int ticks) {
   plan["delays"] = delays;
 }
 
+// Some plugins take time: the clock moves inside the tick, between the
+// detectors and the pause check, between the actions of a chain (only for
+// plans without ruleset-level cgroups, whose instances run in no fixed order).
+inline void addPluginCosts(Rng& rng, Json::Value& plan) {
+  for (const auto& rs : plan["config"]["rulesets"])
+    if (rs.isMember("cgroup"))
+      return;
+  for (const auto& id : plan["scripts"].getMemberNames())
+    if (rng.chance(0.3))
+      plan["costs"][id] = (Json::Int64)rng.pick<int64_t>(
+          {1000000, 1000000000LL, 3000000000LL, 20000000000LL});
+}
+
 inline Json::Value genEngineWorld(Rng& rng, bool rich) {
   Json::Value w(Json::objectValue);
   Json::Value cgs(Json::arrayValue);
@@ -224,6 +237,7 @@ inline void runEngineAndCompare(const std::string& clause) {
   }
   RefEngine eng;
   eng.load(config, R.plan["scripts"]);
+  eng.costs = R.plan["costs"];
   for (size_t t = 0; t < facts.time.size(); t++)
     eng.tick((int)t, facts.time[t], facts.members[t]);
   auto obs = observedLines();
